@@ -11,6 +11,18 @@ pub fn guard<T>(f: impl FnOnce() -> T) -> Option<T> {
     catch_unwind(AssertUnwindSafe(f)).ok()
 }
 
+/// an iterator whose size hint is honest but useless: at least 0, at most `usize::MAX`
+pub struct HugeUpper<I>(pub I);
+impl<I: Iterator> Iterator for HugeUpper<I> {
+    type Item = I::Item;
+    fn next(&mut self) -> Option<I::Item> {
+        self.0.next()
+    }
+    fn size_hint(&self) -> (usize, Option<usize>) {
+        (0, Some(usize::MAX))
+    }
+}
+
 /// where a value in some input form goes: a region (`push`) or a FlatStack (`copy` / `extend` / `from_iter`)
 pub trait Sink<R: Region>: Sized {
     type Out;
@@ -90,13 +102,23 @@ impl<R: Region, S: IndexContainer<R::Index>> Sink<R> for FlatStack<R, S> {
     where
         R: Push<T>,
     {
-        self.extend(xs.into_iter().filter(|_| true))
+        // two honest but unhelpful hints: (0, Some(n)) from a filter, (0, Some(usize::MAX)) from an adaptor that
+        // only knows "finite" (an upper bound may be arbitrarily loose)
+        if xs.len() % 2 == 0 {
+            self.extend(xs.into_iter().filter(|_| true))
+        } else {
+            self.extend(HugeUpper(xs.into_iter()))
+        }
     }
     fn from_all_loose<T>(xs: Vec<T>) -> Self
     where
         R: Push<T>,
     {
-        xs.into_iter().filter(|_| true).collect()
+        if xs.len() % 2 == 0 {
+            xs.into_iter().filter(|_| true).collect()
+        } else {
+            HugeUpper(xs.into_iter()).collect()
+        }
     }
 }
 
